@@ -116,40 +116,41 @@ func ErrName(err error) string {
 
 // Features are measured (never assumed) properties of an executed history.
 type Features struct {
-	Muts              int
-	Puts, Dels        int
-	Rewrites          int // key written twice or deleted after being written
-	Rotations         int
-	BigValue          int // value longer than one block
-	NearBoundary      int // a write left the file end within 8 bytes of a block boundary
-	TailPad           int // a write started in the last 7 bytes of a block
-	OverLimit         int // record larger than DataFileSize
-	Batches           int
-	BatchPlainSame    int // key written both by a batch and plainly
-	Merges            int
-	MergeOK           int
-	MergeAfterDel     int
-	Reopens           int
-	ReopenAfter       map[string]int
-	EmptyKeyOps       int
-	LongKey           int
-	Enumerations      int
-	Steps             int
-	BGetRotated       int // Batch.Get served from a rotated (older) file
-	BGetActive        int // Batch.Get served from the database, active file
-	BGetStaged        int
-	BatchRepeat       int // batch touching one key more than once
-	BPutAfterDel      int // Batch.Put of a key the same batch deleted before
-	MidBatchFlush     int // the batch caused a rotation before its Commit returned
-	PostCommit        int
-	EmptyBatch        int
-	IterSessions      int
-	Backups           int
-	BackupWithHint    int
-	WritesAfterBackup int
-	IterNonTrivial    int // sessions over keys in >= 2 shards with a Seek or a Rewind after Next
-	IterLabels        map[string]int
-	dirtySince        map[string]bool // events since last reopen
+	Muts                         int
+	Puts, Dels                   int
+	Rewrites                     int // key written twice or deleted after being written
+	Rotations                    int
+	BigValue                     int // value longer than one block
+	NearBoundary                 int // a write left the file end within 8 bytes of a block boundary
+	TailPad                      int // a write started in the last 7 bytes of a block
+	OverLimit                    int // record larger than DataFileSize
+	Batches                      int
+	BatchPlainSame               int // key written both by a batch and plainly
+	Merges                       int
+	MergeOK                      int
+	MergeAfterDel                int
+	Reopens                      int
+	ReopenAfter                  map[string]int
+	EmptyKeyOps                  int
+	LongKey                      int
+	Enumerations                 int
+	Steps                        int
+	BGetRotated                  int // Batch.Get served from a rotated (older) file
+	BGetActive                   int // Batch.Get served from the database, active file
+	BGetStaged                   int
+	BatchRepeat                  int // batch touching one key more than once
+	BPutAfterDel                 int // Batch.Put of a key the same batch deleted before
+	MidBatchFlush                int // the batch caused a rotation before its Commit returned
+	PostCommit                   int
+	EmptyBatch                   int
+	IterSessions                 int
+	C13Rot, C13Thr, C13SyncBatch int
+	Backups                      int
+	BackupWithHint               int
+	WritesAfterBackup            int
+	IterNonTrivial               int // sessions over keys in >= 2 shards with a Seek or a Rewind after Next
+	IterLabels                   map[string]int
+	dirtySince                   map[string]bool // events since last reopen
 }
 
 // Runner executes a history against the real engine and a reference map.
@@ -177,7 +178,9 @@ type Runner struct {
 	Poison        *PoisonBufs                     // C15: shared caller buffers
 	AfterStep     []func(r *Runner, op *Op) *Fail // extra oracles (C13, C17 …)
 	NoDump        bool                            // skip the per-step dump (lock-step followers)
-	OnMergeResult func(err error) *Fail           // judge the return value of Merge (C06, C17)
+	BeforeStep    []func(r *Runner, op *Op)
+	OnClosed      func(r *Runner) *Fail // called between Close and Open of a reopen (C13)
+	OnMergeResult func(err error) *Fail // judge the return value of Merge (C06, C17)
 	LastMergeErr  error
 	sinceFull     int
 	lastIter      *IterFeatures
@@ -399,6 +402,9 @@ func (r *Runner) Step(op Op) (fail *Fail) {
 			fail = failf("panic", "op %s panicked: %v\n%s", op.K, p, trimStack(debug.Stack()))
 		}
 	}()
+	for _, fn := range r.BeforeStep {
+		fn(r, &op)
+	}
 	touched, global, f := r.exec(&op)
 	if f != nil {
 		return f
@@ -1048,6 +1054,11 @@ func (r *Runner) execReopen(op *Op) *Fail {
 	if err != nil {
 		return failf("close-error", "Close() = %v", err)
 	}
+	if r.OnClosed != nil {
+		if f := r.OnClosed(r); f != nil {
+			return f
+		}
+	}
 	opt := r.Opt
 	if op.Opt != nil {
 		opt = *op.Opt
@@ -1198,6 +1209,9 @@ func (r *Runner) AddLabels() {
 	lab(r.F.MidBatchFlush > 0, "batch-rotated-before-commit-returned")
 	lab(r.F.PostCommit > 0, "post-commit-call")
 	lab(r.F.EmptyBatch > 0, "empty-batch")
+	lab(r.F.C13Rot > 0, "rotation-observed-at-io-level")
+	lab(r.F.C13Thr > 0, "threshold-triggered-sync")
+	lab(r.F.C13SyncBatch > 0, "sync-batch")
 	lab(r.F.Backups > 0, "backup")
 	lab(r.F.Backups > 1, "several-backups")
 	lab(r.F.BackupWithHint > 0, "backup-with-hint-file")
@@ -1208,6 +1222,7 @@ func (r *Runner) AddLabels() {
 	for k, n := range r.F.ReopenAfter {
 		lab(n > 0, "reopen-after-"+k)
 	}
+	s.Label(fmt.Sprintf("cfg-sync%d", r.Opt.Sync))
 	s.Label(fmt.Sprintf("cfg-index%d", r.Opt.Index))
 	s.Label(fmt.Sprintf("cfg-io%d", r.Opt.IO))
 }
